@@ -206,7 +206,7 @@ def get_Werner_eof(dim:int, alpha:np.ndarray|float):
     if np.any(ind0):
         a = a[ind0]
         tmp0 = (1-np.sqrt(1-a*a))/2
-        ret[ind0] = -tmp0*np.log(tmp0) - (1-tmp0)*np.log(1-tmp0)
+        ret[ind0] = -scipy.special.xlogy(tmp0, tmp0) - scipy.special.xlogy(1-tmp0, 1-tmp0) #0*log(0)=0 next to alpha=1/dim
     ret = ret.reshape(shape)
     return ret
 
@@ -295,8 +295,8 @@ def get_Isotropic_eof(dim:int, alpha:np.ndarray|float):
     F = (1+alpha*dim*dim-alpha)/(dim*dim)
     ind0 = np.logical_and(F>1/dim, F<=(4*(dim-1)/(dim*dim)))
     if np.any(ind0):
-        gamma = (np.sqrt(F[ind0])+np.sqrt((dim-1)*(1-F[ind0])))**2/dim
-        tmp0 = -gamma*np.log(gamma) - (1-gamma)*np.log(1-gamma)
+        gamma = np.minimum((np.sqrt(F[ind0])+np.sqrt((dim-1)*(1-F[ind0])))**2/dim, 1) #rounding gives 1+2e-16 next to F=1/dim
+        tmp0 = -scipy.special.xlogy(gamma, gamma) - scipy.special.xlogy(1-gamma, 1-gamma)
         tmp1 = (1-gamma)*np.log(dim-1)
         ret[ind0] = tmp0 + tmp1
     ind1 = F>(4*(dim-1)/(dim*dim))
